@@ -27,7 +27,11 @@ func Corpus() []opsim.Scenario {
 	for range orders {
 		fin = append(fin, opsim.Action{Kind: "Finish", Q: 0, Ok: true})
 	}
+	one := 1
 	return []opsim.Scenario{
+		// hook paths whose lexical order differs from directory-walk order, equal ORDER, kubernetes and schedule bindings
+		{Cfg: nestedPaths([]opsim.Hook{{Id: 1, Startup: &one, Kube: []opsim.KB{{Name: 1, ExecSync: true}}}, {Id: 2, Startup: &one, Sched: []opsim.SB{{Name: 2, Cron: 1}}}, {Id: 3, Startup: &one, Kube: []opsim.KB{{Name: 3, ExecSync: true}}}}),
+			Acts: []opsim.Action{{Kind: "Boot"}, {Kind: "Finish", Q: 0, Ok: true}, {Kind: "Finish", Q: 0, Ok: true}, {Kind: "Finish", Q: 0, Ok: true}, {Kind: "Finish", Q: 0, Ok: true}, {Kind: "Finish", Q: 0, Ok: true}}},
 		// F2 (fixed): 30 onStartup hooks with ORDER in {0,1,2}: sort.Slice lost the path order
 		{Cfg: many, Acts: fin},
 		// F9 (fixed): grouped Synchronization followed by one with executeHookOnSynchronization=false
@@ -36,6 +40,19 @@ func Corpus() []opsim.Scenario {
 		{Cfg: []opsim.Hook{{Id: 1, Kube: []opsim.KB{{Name: 1, Group: 1, ExecSync: true}, {Name: 2, Group: 1, ExecSync: false}, {Name: 3, Group: 1, ExecSync: true}}}},
 			Acts: []opsim.Action{{Kind: "Boot"}, {Kind: "Finish", Q: 0, Ok: false}, {Kind: "Finish", Q: 0, Ok: true}, {Kind: "Finish", Q: 0, Ok: true}}},
 	}
+}
+
+// nestedPaths gives the first three hooks paths whose lexical order (the documented load
+// order) differs from the order in which a directory walk meets them: a directory `d` with
+// siblings `d-…` and `d.…` ('-' and '.' sort before '/').  Lexical: d-h001 < d.h002 < d/h003;
+// a walk meets d/h003 first.
+func nestedPaths(cfg []opsim.Hook) []opsim.Hook {
+	if len(cfg) < 3 {
+		return cfg
+	}
+	out := append([]opsim.Hook{}, cfg...)
+	out[0].Path, out[1].Path, out[2].Path = "d-h001", "d.h002", "d/h003"
+	return out
 }
 
 func Gen(r *core.Rng, tier string) ([]core.In[opsim.Scenario], bool) {
@@ -56,14 +73,19 @@ func Gen(r *core.Rng, tier string) ([]core.In[opsim.Scenario], bool) {
 			p = profileBig
 		}
 		sc := opsim.Scenario{Cfg: opsim.GenConfig(r, p), Seed: int64(r.Next() >> 1), Steps: 8 + r.Intn(p.Steps), Profile: p.Name}
-		ins = append(ins, core.In[opsim.Scenario]{Input: sc, Stream: "random"})
+		stream := "random"
+		if len(sc.Cfg) >= 3 && r.Chance(40) {
+			sc.Cfg = nestedPaths(sc.Cfg)
+			stream = "random-nested-paths"
+		}
+		ins = append(ins, core.In[opsim.Scenario]{Input: sc, Stream: stream})
 	}
 	return ins, false
 }
 
 var Driver = core.Driver[opsim.Scenario, opsim.Trace]{
 	Spec: core.Spec{Property: "C06", Imports: []string{"Op_Model", "Op_Corr", "C06_Spec", "C06_Corr"}, Corr: "C06_Corr", ShrinkKey: "acts",
-		Rule: "operator-level scenarios (see C03) concentrated on start-up: 1-6 hooks (every 6th case up to 40 hooks) with ORDER drawn from {0,1} (10% from -5..34), kubernetes bindings with groups / executeHookOnSynchronization=false / v0 hooks, start-up executions failing 10-30% of the time; non-trivial = >=4 actions of >=2 kinds with >=2 executions; distinct = distinct (config, action list)"},
+		Rule: "operator-level scenarios (see C03) concentrated on start-up: 1-6 hooks (every 6th case up to 40 hooks) with ORDER drawn from {0,1} (10% from -5..34), kubernetes bindings with groups / executeHookOnSynchronization=false / v0 hooks, start-up executions failing 10-30% of the time; 40% of the configurations with >=3 hooks put the first three hooks at paths (d-h001, d.h002, d/h003) whose lexical order differs from directory-walk order; non-trivial = >=4 actions of >=2 kinds with >=2 executions; distinct = distinct (config, action list)"},
 	Gen:      Gen,
 	Run:      opsim.RunScenario,
 	Render:   func(in opsim.Scenario, obs *opsim.Trace, crash string) core.Case { return opsim.Render(in, obs, crash) },
